@@ -735,6 +735,27 @@ def thread_affinity(chk, found):
                                     node=node,
                                     stmt="%s.%s in %s" % (d, node.func.attr, sorted(ctx - {LOOP})),
                                 )
+    # the loop's own scheduling methods are not thread-safe either: from a foreign thread only call_soon_threadsafe /
+    # run_coroutine_threadsafe wake the loop -- loop.call_soon(...) from a payload thread is run whenever the loop next
+    # wakes up for another reason, i.e. never while it is idle (the failure or interrupt is recorded but run() sleeps on)
+    UNSAFE = ("call_soon", "call_later", "call_at", "create_task")
+    for q, (cls, _m) in found.items():
+        for fis in cls.methods.values():
+            for fi in fis:
+                for node in util.walk_no_nested(fi.node):
+                    if isinstance(node, ast.Call) and isinstance(node.func, ast.Attribute) and node.func.attr in UNSAFE and (util.dotted(node.func.value) or "").endswith("asyncio_loop"):
+                        n += 1
+                        chk.count()
+                        ctx = set(g.contexts.get(fi.qual, ()))
+                        if ctx - {LOOP}:
+                            bad += 1
+                            chk.bad(
+                                rule,
+                                fi.qual,
+                                "%s.%s(...) is called in execution context %s: the event loop's %s is not thread-safe and does not wake an idle loop -- what it schedules (the report of a failure or interrupt) only runs when the loop wakes up for another reason; use call_soon_threadsafe" % (util.dotted(node.func.value), node.func.attr, sorted(ctx - {LOOP}), node.func.attr),
+                                node=node,
+                                stmt="%s in %s" % (node.func.attr, sorted(ctx - {LOOP})),
+                            )
     # module-level helpers that are handed one of these objects:  helper(self._payload_failure, x)  /
     # call_soon_threadsafe(helper, self._payload_failure, x)  -- the mutation happens in the helper's context
     all_fields = set()
